@@ -54,6 +54,19 @@ type popValImpl struct {
 
 func (popValImpl) Marker() {}
 
+// a field whose own UnmarshalCBOR / UnmarshalJSON goes through the populate helpers again (as derived claims types do)
+type popInner struct {
+	P *int64 `cbor:"1,keyasint,omitempty" json:"p,omitempty"`
+}
+
+func (o *popInner) UnmarshalCBOR(b []byte) error { return encoding.PopulateStructFromCBOR(extDM, b, o) }
+func (o *popInner) UnmarshalJSON(b []byte) error { return encoding.PopulateStructFromJSON(b, o) }
+
+type popNesting struct {
+	In  *popInner `cbor:"1,keyasint,omitempty" json:"a,omitempty"`
+	In2 *popInner `cbor:"2,keyasint,omitempty" json:"b,omitempty"`
+}
+
 type decodeEntry struct {
 	name string
 	json bool
@@ -76,6 +89,9 @@ func init() {
 	}
 	followKeys = append(followKeys, nil)
 	followKeys = append(followKeys, degenerateKeys()...)
+	for _, a := range []string{"ES256", "EdDSA", "PS256"} {
+		followKeys = append(followKeys, fixtures.Get(a, 1).Priv) // "any key": the private half is a key too
+	}
 }
 
 // usedObjectPolluters: inputs given to a claims object BEFORE the explored input ("start from non-initial
@@ -154,6 +170,10 @@ func decodeEntries() []decodeEntry {
 			d := &popIfaceEmb{}
 			return d, encoding.PopulateStructFromCBOR(extDM, in, d)
 		}},
+		{"PopulateStructFromCBOR(field-populates-again)", false, func(in []byte) (any, error) {
+			d := &popNesting{}
+			return d, encoding.PopulateStructFromCBOR(extDM, in, d)
+		}},
 		{"PopulateStructFromCBOR(iface-holding-value)", false, func(in []byte) (any, error) {
 			d := &popIfaceEmb{PopIface: popValImpl{}}
 			return d, encoding.PopulateStructFromCBOR(extDM, in, d)
@@ -191,6 +211,10 @@ func decodeEntries() []decodeEntry {
 		{"PopulateStructFromJSON(embedded2)", true, func(in []byte) (any, error) { d := &popEmb2{}; return d, encoding.PopulateStructFromJSON(in, d) }},
 		{"PopulateStructFromJSON(iface-embedded)", true, func(in []byte) (any, error) {
 			d := &popIfaceEmb{PopIface: &popFlat{}}
+			return d, encoding.PopulateStructFromJSON(in, d)
+		}},
+		{"PopulateStructFromJSON(field-populates-again)", true, func(in []byte) (any, error) {
+			d := &popNesting{}
 			return d, encoding.PopulateStructFromJSON(in, d)
 		}},
 		{"PopulateStructFromJSON(iface-holding-value)", true, func(in []byte) (any, error) {
@@ -252,6 +276,7 @@ type decodeCtx struct {
 	jr      *shard.Journal
 	entries []decodeEntry
 	w, n    int
+	prior   []byte // when set: given to the same entry point right before the input under test (state carried across calls)
 }
 
 func (d *decodeCtx) mine(x int) bool { return d.n <= 1 || x%d.n == d.w }
@@ -268,6 +293,10 @@ func (d *decodeCtx) feed(c *choice.Ctx, in []byte, kind int, origin string) {
 		buf := append([]byte{}, in...)
 		var out any
 		var err error
+		if d.prior != nil {
+			pb := append([]byte{}, d.prior...)
+			safely(func() { _, _ = e.call(pb) })
+		}
 		a0 := heapAllocs()
 		t0 := time.Now()
 		panicked, pv := safely(func() { out, err = e.call(buf) })
@@ -376,12 +405,15 @@ func decodeSeeds() []decodeSeed {
 	// codec-level maps
 	pm := mcbor.M(mcbor.U(1), mcbor.I(-5), mcbor.U(2), mcbor.T("b"), mcbor.I(-3), mcbor.B([]byte{1, 2}), mcbor.U(4), mcbor.U(7), mcbor.U(5), mcbor.Bool(true), mcbor.U(6), mcbor.U(9))
 	out = append(out, decodeSeed{"codec-map", false, mcbor.Encode(pm), pm})
+	pn := mcbor.M(mcbor.U(1), mcbor.M(mcbor.U(1), mcbor.I(-5)), mcbor.U(2), mcbor.M(mcbor.U(1), mcbor.U(7)))
+	out = append(out, decodeSeed{"codec-map-of-maps", false, mcbor.Encode(pn), pn})
 	comps := compsTree([]*refmodel.Comp{fullComp(1, 32), okComp(2, 48)})
 	out = append(out, decodeSeed{"components", false, mcbor.Encode(comps), comps})
 	for i, a := range cl {
 		out = append(out, decodeSeed{fmt.Sprintf("json-claims%d", i), true, wireJSON(a), nil})
 	}
 	out = append(out, decodeSeed{"json-ext-p2", true, []byte(strings.Replace(string(wireJSON(&ext)), "{", `{"extra":7,`, 1)), nil})
+	out = append(out, decodeSeed{"json-codec-nested", true, []byte(`{"a":{"p":-5},"b":{"p":7}}`), nil})
 	out = append(out, decodeSeed{"json-codec", true, []byte(`{"a":-5,"b":"b","c":"AQI=","d":7,"e":true,"f":9}`), nil})
 	out = append(out, decodeSeed{"json-components", true, []byte(`[{"measurement-type":"BL","measurement-value":"` + b64(pat(32, 1)) + `","signer-id":"` + b64(pat(32, 2)) + `"},{"measurement-value":"` + b64(pat(48, 3)) + `","signer-id":"` + b64(pat(48, 4)) + `","version":"1"}]`), nil})
 	return out
@@ -824,6 +856,74 @@ func decodeScenarios(d *decodeCtx, thoroughTier bool) map[string]choice.Scenario
 		}
 		d.feed(c, in, 0, fmt.Sprintf("hostile head major=%d width=%d declared=%d", mj, w, l))
 	}
+	// what a large earlier input leaves behind must not be charged to (or reserved for) a small later one
+	sc["after-large-input"] = func(c *choice.Ctx) {
+		pk := c.Choose("earlier-input", 4)
+		if !d.mine(pk) {
+			return
+		}
+		var prior []byte
+		kind := 0
+		const n = 30000
+		switch pk {
+		case 0: // indefinite-length map with n entries (unknown keys)
+			prior = append(prior, 0xbf)
+			for i := 0; i < n; i++ {
+				prior = append(prior, 0x19, byte(0x40+i>>8), byte(i), 0x00)
+			}
+			prior = append(prior, 0xff)
+		case 1: // definite-length map with n entries
+			prior = append(prior, 0xb9, byte(n>>8), byte(n&0xff))
+			for i := 0; i < n; i++ {
+				prior = append(prior, 0x19, byte(0x40+i>>8), byte(i), 0x00)
+			}
+		case 2: // array of n items
+			prior = append(prior, 0x99, byte(n>>8), byte(n&0xff))
+			prior = append(prior, bytesRepeat([]byte{0x00}, n)...)
+		case 3: // JSON object with n members
+			kind = 1
+			var sb strings.Builder
+			sb.WriteString("{")
+			for i := 0; i < n; i++ {
+				if i > 0 {
+					sb.WriteString(",")
+				}
+				fmt.Fprintf(&sb, `"k%d":0`, i)
+			}
+			sb.WriteString("}")
+			prior = []byte(sb.String())
+		}
+		var smalls [][]byte
+		if kind == 0 {
+			smalls = [][]byte{{0xa0}, {0xbf, 0xff}, {0xbf, 0x00, 0x00, 0xff}, {0xbf, 0x00, 0x00}, {0xbf}, {0xa1, 0x00, 0x00}, {0x80}, {0x9f, 0xff}, {0x9f, 0x00}, {0xb9, 0xff, 0xff}, {0xd2, 0x84, 0x40, 0xa0, 0x40, 0x40}}
+		} else {
+			smalls = [][]byte{[]byte("{}"), []byte(`{"a":1}`), []byte("["), []byte("[]"), []byte(`{"a":`), []byte(`{"k1":0,"k2":0}`)}
+		}
+		in := smalls[c.Choose("input", len(smalls))%len(smalls)]
+		d.prior = prior
+		d.feed(c, in, kind, fmt.Sprintf("small input after earlier input kind %d (%d bytes)", pk, len(prior)))
+		d.prior = nil
+	}
+	// many member names, each of them twice (work and memory must stay linear in the input)
+	sc["json-repeated-names"] = func(c *choice.Ctx) {
+		mi := c.Choose("distinct-names", 3)
+		if !d.mine(mi) {
+			return
+		}
+		m := []int{100, 2000, 5000}[mi]
+		var sb strings.Builder
+		sb.WriteString("{")
+		for rep := 0; rep < 2; rep++ {
+			for i := 0; i < m; i++ {
+				if rep+i > 0 {
+					sb.WriteString(",")
+				}
+				fmt.Fprintf(&sb, `"n%d":%d`, i, rep)
+			}
+		}
+		sb.WriteString("}")
+		d.feed(c, []byte(sb.String()), 1, fmt.Sprintf("%d member names, each twice", m))
+	}
 	depths := []int{16, 31, 32, 33, 1000, 10001, 32768}
 	sc["nesting"] = func(c *choice.Ctx) {
 		di := c.Choose("depth", len(depths))
@@ -898,9 +998,9 @@ func bytesRepeat(b []byte, n int) []byte {
 // plan lists (scenario, deviation bound) per tier.
 func decodePlan(thoroughTier bool) [][2]any {
 	if !thoroughTier {
-		return [][2]any{{"s1.short-bytes", -1}, {"s2.byte-closure", -1}, {"s3.tree-closure", 4}, {"s3.json-closure", 4}, {"hostile-heads", -1}, {"nesting", -1}}
+		return [][2]any{{"s1.short-bytes", -1}, {"s2.byte-closure", -1}, {"s3.tree-closure", 4}, {"s3.json-closure", 4}, {"hostile-heads", -1}, {"nesting", -1}, {"after-large-input", -1}, {"json-repeated-names", -1}}
 	}
-	return [][2]any{{"s1.short-bytes", -1}, {"s2.byte-closure", -1}, {"s3.tree-closure", -1}, {"s3.json-closure", -1}, {"hostile-heads", -1}, {"nesting", -1}, {"s2.head-pairs", -1}, {"s1.three-bytes", -1}}
+	return [][2]any{{"s1.short-bytes", -1}, {"s2.byte-closure", -1}, {"s3.tree-closure", -1}, {"s3.json-closure", -1}, {"hostile-heads", -1}, {"nesting", -1}, {"after-large-input", -1}, {"json-repeated-names", -1}, {"s2.head-pairs", -1}, {"s1.three-bytes", -1}}
 }
 
 // Workers maps property id -> worker body.
